@@ -970,3 +970,27 @@ def bce_timeline_roundtrip_xsd10(yi: int, mi: int, di: int) -> bool:
         if (w.year, w.month, w.day) != (ny, nm, nd):
             return False
     return True
+
+
+# --- added after the round-4 baseline reports: xs:time arithmetic is modulo 24 hours for durations of any length -----------------------------
+
+T_TMOD = parse_all({'x': '(string($t + xs:dayTimeDuration($p)), string(xs:dayTimeDuration($p) + $t), string($t - xs:dayTimeDuration($q)))'})['x']
+_TMOD_DAYS = (0, 1, 365, 3000000, 999999999, 10 ** 12)
+_TMOD_SECS = (0, 1, 3599, 3600, 43200, 86399)
+
+
+@ob(budget=400, bound='xs:time hh:30:00 for hh in {0, 12, 23}, dayTimeDuration of {0, 1, 365, 3000000, 999999999, 10^12} days plus {0, 1, 3599, 3600, 43200, 86399} seconds, optionally '
+                      'negated (all chosen by the solver, concrete on each path): t + p, p + t and t - (-p) are the time of day (h*3600 + 1800 + p) mod 86400',
+    funcs=[D + ':Time.__add__', D + ':Time.__sub__', D + ':DayTimeDuration.__add__'])
+def time_arithmetic_modulo_day(h: int, di: int, si: int, neg: bool) -> bool:
+    """
+    pre: 0 <= h <= 2 and 0 <= di <= 5 and 0 <= si <= 5
+    post: _
+    """
+    h = (0, 12, 23)[[k for k in range(3) if k == h][0]]
+    days, secs = _TMOD_DAYS[[k for k in range(6) if k == di][0]], _TMOD_SECS[[k for k in range(6) if k == si][0]]
+    lex = 'P%dDT%dS' % (days, secs)
+    p, q = ('-' + lex, lex) if neg else (lex, '-' + lex)
+    tot = (h * 3600 + 1800 + (-1 if neg else 1) * (days * 86400 + secs)) % 86400
+    want = '%02d:%02d:%02d' % (tot // 3600, tot % 3600 // 60, tot % 60)
+    return L(T_TMOD.evaluate(XPathContext(item=1, variables={'t': Time(h, 30, 0), 'p': p, 'q': q}))) == [want] * 3
